@@ -24,6 +24,7 @@ def dispatch (fields : List String) : Verdict :=
   | "C14" :: rest => handleC14 rest
   | "C19" :: rest => handleC19 rest
   | "C15" :: rest => handleC15 rest
+  | "C16" :: rest => handleC16 rest
   | "C02" :: rest => handleC02 rest
   | "C03" :: rest => handleC03 rest
   | "C04" :: rest => handleC04 rest
